@@ -53,7 +53,7 @@ def accAnswer (ws : List String) : String :=
   match ws with
   | ["msm-awr", r, a, b] =>
     match parseNat? r, parseMsm? a, parseMsm? b with
-    | some r, some a, some b => fmtMsm (a.accumulateWithR b (fr r))
+    | some r, some a, some b => fmtMsm (a.accumulateWithROff b (fr r))
     | _, _, _ => "bad-op"
   | ["msm-eval", fb, m] =>
     match parseFixed? fb, parseMsm? m with
